@@ -207,6 +207,15 @@ func runHistory(c *mon.Ctx, cfg hcfg, names []string, hist []event) {
 					lastRet[k] = 0
 				}
 				lastRet[len(lastRet)-1] = 7
+				// what a caller that builds a message does: append to the value it was given. If the returned slice
+				// has spare capacity this writes behind it (canonical content again: zeros and a small last byte)
+				if spare := cap(lastRet) - len(lastRet); spare > 0 {
+					ext := lastRet[:cap(lastRet)]
+					for k := len(lastRet); k < len(ext); k++ {
+						ext[k] = 0
+					}
+					ext[len(ext)-1] = 9
+				}
 				mutRet = true
 				_ = lastRetRecomputed
 			}
